@@ -86,6 +86,10 @@ class Slice:
         return self.content.size - self.open_start - self.open_end
 
     def insert_at(self, pos: int, fragment: Fragment) -> Optional["Slice"]:
+        if pos < 0 or pos > self.size:
+            # outside the slice: beyond an open side the content would land next to
+            # the open node and change which node the slice is open through
+            return None
         content = insert_into(
             self.content,
             pos + self.open_start,
